@@ -4,7 +4,7 @@ CONSTANTS
   Labels <- L3
   MaxNodes = 1
   MaxDepth = 4
-  Alphabet <- AlphaFull
+  Alphabet <- AlphaCore
   MaxToks = 4
   Big = FALSE
 SPECIFICATION SpecTexts
